@@ -116,6 +116,7 @@ func main() {
 				if rel == "parse" {
 					n, sk := rewriteConcurrency(p, f, relf, &sites)
 					skipped = append(skipped, sk...)
+					n += rewriteLocks(p, f, relf, &sites) // locks and Once.Do between lexer goroutine and parser (none on the pinned tree)
 					touched = n > 0
 					yieldFiles = append(yieldFiles, name)
 				}
@@ -278,6 +279,9 @@ func scanUnsimulated(p *packages.Package, f *ast.File, relf string) {
 					ts := tv.Type.String()
 					switch ts {
 					case "sync.WaitGroup", "sync.Map", "sync.Once", "sync.Cond", "sync.Pool", "*sync.Cond":
+						if ts == "sync.Once" && (*mode == "c06" || *mode == "c07") {
+							break // rule R3 gives Once.Do a seam in these modes
+						}
 						add("decl:"+ts, x)
 					}
 					if strings.HasPrefix(ts, "chan ") || strings.HasPrefix(ts, "<-chan ") || strings.HasPrefix(ts, "chan<- ") {
@@ -401,11 +405,41 @@ func rewriteLocks(p *packages.Package, f *ast.File, relf string, sites *[]site) 
 	n := 0
 	astutil.Apply(f, func(c *astutil.Cursor) bool {
 		call, ok := c.Node().(*ast.CallExpr)
-		if !ok || len(call.Args) != 0 {
+		if !ok {
 			return true
 		}
 		sel, ok := call.Fun.(*ast.SelectorExpr)
 		if !ok {
+			return true
+		}
+		if sel.Sel.Name == "Do" && len(call.Args) == 1 {
+			// sync.(*Once).Do(f) -> verifsimrt.OnceDo(site, &once, f): a second caller parks in the
+			// scheduler instead of blocking inside the real Once while it holds the baton
+			if selection := p.TypesInfo.Selections[sel]; selection != nil {
+				if fn, ok := selection.Obj().(*types.Func); ok && fn.Pkg() != nil && fn.Pkg().Path() == "sync" {
+					if recv := fn.Type().(*types.Signature).Recv(); recv != nil && strings.HasSuffix(recv.Type().String(), "sync.Once") {
+						if tv, ok := p.TypesInfo.Types[sel.X]; ok {
+							id := pos(p, relf, call)
+							*sites = append(*sites, site{ID: id, Rule: "R3", Pkg: pkgRel(p)})
+							n++
+							var arg ast.Expr = sel.X
+							if _, isPtr := tv.Type.Underlying().(*types.Pointer); !isPtr {
+								arg = &ast.UnaryExpr{Op: token.AND, X: sel.X}
+							}
+							// an embedded sync.Once reached through its outer struct: take the field explicitly
+							if !strings.HasSuffix(strings.TrimPrefix(tv.Type.String(), "*"), "sync.Once") {
+								arg = &ast.UnaryExpr{Op: token.AND, X: &ast.SelectorExpr{X: sel.X, Sel: ast.NewIdent("Once")}}
+							}
+							f := call.Args[0]
+							call.Fun = &ast.SelectorExpr{X: ast.NewIdent("verifsimrt"), Sel: ast.NewIdent("OnceDo")}
+							call.Args = []ast.Expr{&ast.BasicLit{Kind: token.STRING, Value: fmt.Sprintf("%q", id)}, arg, f}
+						}
+					}
+				}
+			}
+			return true
+		}
+		if len(call.Args) != 0 {
 			return true
 		}
 		helper := map[string]string{"Lock": "LockL", "Unlock": "UnlockL", "RLock": "RLockL", "RUnlock": "RUnlockL"}[sel.Sel.Name]
@@ -949,6 +983,76 @@ func RWRUnlock(site string, m *sync.RWMutex) {
 	}
 }
 
+// OnceDo stands for once.Do(f). Under a scheduler a caller that finds another
+// worker inside Do parks (a switch point like a contended lock) instead of
+// blocking in the real Once while it holds the baton; every caller still ends
+// in the real once.Do, which gives the usual happens-before edge.
+func OnceDo(site string, o *sync.Once, f func()) {
+	blocked := BlockedHook
+	if blocked == nil {
+		if s := Sim; s != nil {
+			blocked = s.Blocked
+		}
+	}
+	if blocked == nil {
+		o.Do(f)
+		return
+	}
+	if h := LockHook; h != nil {
+		h(site)
+	}
+	for onceRunning(o) {
+		blocked(site)
+	}
+	if onceDone(o) {
+		o.Do(f)
+		return
+	}
+	onceSet(o, true, false)
+	defer func() {
+		onceSet(o, false, true)
+		if h := UnlockHook; h != nil {
+			h(site)
+		} else if s := Sim; s != nil {
+			s.Event(site)
+		}
+	}()
+	o.Do(f)
+}
+
+// (a slice, not a map, and //go:norace: this is scheduler-side state that the
+// workers touch one at a time under the baton, which the race detector cannot see)
+type onceState struct {
+	o             *sync.Once
+	running, done bool
+}
+
+var onceStates []*onceState
+
+//go:norace
+func onceFind(o *sync.Once) *onceState {
+	for _, s := range onceStates {
+		if s.o == o {
+			return s
+		}
+	}
+	s := &onceState{o: o}
+	onceStates = append(onceStates, s)
+	return s
+}
+
+//go:norace
+func onceRunning(o *sync.Once) bool { return onceFind(o).running }
+
+//go:norace
+func onceDone(o *sync.Once) bool { return onceFind(o).done }
+
+//go:norace
+func onceSet(o *sync.Once, running, done bool) {
+	s := onceFind(o)
+	s.running, s.done = running, done
+}
+
 // ---- R4: goroutines and channels ----------------------------------------------
 //
 // With Sim == nil these are the plain Go operations. With a simulator installed
@@ -1256,17 +1360,8 @@ func Select(site string, hasDefault bool, cases ...SelCase) (int, any, bool) {
 	}
 	s.Event(site)
 	for {
-		for i, c := range cases {
-			if !c.send && chans[i] != nil {
-				chans[i].waiters++
-			}
-		}
-		s.Blocked(site)
-		for i, c := range cases {
-			if !c.send && chans[i] != nil {
-				chans[i].waiters--
-			}
-		}
+		// (the Event above is a switch point: look again BEFORE parking, or a close or a
+		// send that happened meanwhile is a lost wake-up)
 		if st.chosen >= 0 {
 			return st.chosen, nil, false // a receiver took one of our offers
 		}
@@ -1286,6 +1381,17 @@ func Select(site string, hasDefault bool, cases ...SelCase) (int, any, bool) {
 			i := pick(r)
 			st.chosen = i // withdraws our tentative offers
 			return fire(i)
+		}
+		for i, c := range cases {
+			if !c.send && chans[i] != nil {
+				chans[i].waiters++
+			}
+		}
+		s.Blocked(site)
+		for i, c := range cases {
+			if !c.send && chans[i] != nil {
+				chans[i].waiters--
+			}
 		}
 	}
 }
